@@ -46,14 +46,17 @@ fn call_proxy(req: Request, target: SocketAddr) -> Outcome {
 
 fn call_proxy_t(req: Request, target: SocketAddr, timeout_ms: u64, give_up_ms: u64) -> Outcome {
     let (tx, rx) = channel();
-    let t = Instant::now();
     std::thread::spawn(move || {
+        // the duration of the call itself, measured around it on the calling thread (not thread start-up or the wake-up of
+        // the harness thread that waits for the result)
+        let t = Instant::now();
         let r = catch_unwind(AssertUnwindSafe(|| proxy_request(&req, target, Duration::from_millis(timeout_ms))));
-        tx.send(r.map_err(|p| panic_msg(&*p))).ok();
+        let dt = t.elapsed();
+        tx.send((r.map_err(|p| panic_msg(&*p)), dt)).ok();
     });
     match rx.recv_timeout(Duration::from_millis(give_up_ms)) {
-        Ok(Ok(resp)) => Outcome::Returned(resp, t.elapsed()),
-        Ok(Err(p)) => Outcome::Panicked(p, t.elapsed()),
+        Ok((Ok(resp), dt)) => Outcome::Returned(resp, dt),
+        Ok((Err(p), dt)) => Outcome::Panicked(p, dt),
         Err(_) => Outcome::Hung,
     }
 }
